@@ -148,8 +148,30 @@ def rand_int(rng):
     return rng.randrange(MIN, MAX + 1)
 
 
+def long_str(rng):
+    # strings longer than a machine word over a small alphabet (so that two of them share blocks and differ in several
+    # positions of one block: what a word-at-a-time comparison would get wrong)
+    return bytes(rng.choice(b"01ab/") for _ in range(rng.choice([8, 9, 15, 16, 17, 24, 33])))
+
+
+def mutate(rng, s):
+    # a relative of s: some positions changed (possibly in opposite directions), or cut, or extended
+    s = bytearray(s)
+    for _ in range(rng.choice([1, 2, 2, 3, 4])):
+        if s:
+            s[rng.randrange(len(s))] = rng.choice(b"01ab/")
+    r = rng.random()
+    if r < 0.15 and s:
+        del s[rng.randrange(len(s)):]
+    elif r < 0.3:
+        s += bytes(rng.choice(b"01ab/") for _ in range(rng.randrange(1, 9)))
+    return bytes(s)
+
+
 def rand_str(rng):
     r = rng.random()
+    if r < 0.15:
+        return long_str(rng)
     if r < 0.35:
         return rng.choice(STRS)
     if r < 0.55:  # a prefix / extension / one-byte change of a pool string
@@ -179,8 +201,12 @@ def gen_cases(ctx, scale):
         a, b, c = rand_str(rng), rand_str(rng), rand_str(rng)
         if rng.random() < 0.25:
             b = a
+        elif len(a) >= 8 and rng.random() < 0.7:
+            b = mutate(rng, a)
         if rng.random() < 0.2:
             c = rng.choice([a, b])
+        elif len(b) >= 8 and rng.random() < 0.5:
+            c = mutate(rng, b)
         cases += ["trs %s %s %s" % (hx(a), hx(b), hx(c)), "ords %s %s" % (hx(a), hx(b)), "eqs %s %s" % (hx(b), hx(c))]
         k = rng.choice([1, 2, 3, 10, 1000, 2 ** 31, 2 ** 62])
         cases += ["cme %d %d %d" % (k, x, y), "cmo %d %d %d" % (k, y, z), "fre %d %d" % (x, z), "fro %d %d" % (x, y),
